@@ -145,6 +145,16 @@ def run_echo(c):
         out, tv, v = c.solve(p)
         W = '1040_recovery_rebate_credit_wkst.'
         c.echo('rrc_per_person', v, W + '6', st.amount('rrc_per_person', y) * (2 if s == 'MFJ' else 1), p)
+        if s == 'MFJ':
+            # joint return on which only one spouse has a valid social security number (and no armed-forces exception): one amount, not two
+            ov1 = dict(ov, **{W + 'ssn_before_due_date': 'no', W + 'armed_forces': 'no', W + 'either_ssn_before_due_date': 'yes'})
+            p1 = scen.plain_persona(y, s, mid, deps_odc=d, overrides=ov1)
+            out1, tv1, v1 = c.solve(p1)
+            c.echo('rrc_per_person', v1, W + '6', st.amount('rrc_per_person', y), p1)
+            ov2 = dict(ov1, **{W + 'armed_forces': 'yes'})
+            p2 = scen.plain_persona(y, s, mid, deps_odc=d, overrides=ov2)
+            out2, tv2, v2 = c.solve(p2)
+            c.echo('rrc_per_person', v2, W + '6', st.amount('rrc_per_person', y) * 2, p2)
         if W + '10' in v:
             c.echo('rrc_phaseout_end', v, W + '10', end, p, transform=lambda x: x + mid)
         else:
